@@ -347,7 +347,10 @@ package htlcswitch
 //@ // ---- replaying a forwarding package: every Add is handled under ITS index in the package (the index the ack filter,
 //@ // ---- the forward filter and the AddRef speak about), not under its position among the not-yet-acked ones (finding F17)
 //@ func (l *channelLink) processRemoteAdds
-//@   props C08 C07
+//@   props C08 C07 C09
+//@   // the packet handed to the switch carries the inbound fee of THIS link's policy, on the first pass and on a replay
+//@   site store htlcPacket.inboundFee nth 0: assert value.Base == l.cfg.FwrdingPolicy.InboundFee.Base && value.Rate == l.cfg.FwrdingPolicy.InboundFee.Rate
+//@   site store htlcPacket.inboundFee nth 1: assert value.Base == l.cfg.FwrdingPolicy.InboundFee.Base && value.Rate == l.cfg.FwrdingPolicy.InboundFee.Rate
 //@   loop * havoc
 //@   let K = any(k)
 //@   loop 0 invariant len(unackedIdxs) == len(unackedAdds) && len(unackedAdds) == len(decodeReqs) &&
@@ -363,3 +366,12 @@ package htlcswitch
 //@   site call Contains nth 0: assert arg(1) == wrap(rangeindex + 1, 16)
 //@   site call Contains nth 1 as forward-filter-read-under-package-index: assert rangeindex + 1 == K ==> arg(1) == unackedIdxs[K]
 //@   site call Set as forward-filter-set-under-package-index: assert rangeindex + 1 == K ==> arg(1) == unackedIdxs[K]
+//@
+//@ // ---- a policy update replaces the whole policy the link decides with, the inbound fee included (also when the new one is zero)
+//@ func (l *channelLink) UpdateForwardingPolicy
+//@   props C09
+//@   ensures l.cfg.FwrdingPolicy.InboundFee.Base == entry(newPolicy).InboundFee.Base &&
+//@           l.cfg.FwrdingPolicy.InboundFee.Rate == entry(newPolicy).InboundFee.Rate &&
+//@           l.cfg.FwrdingPolicy.BaseFee == entry(newPolicy).BaseFee && l.cfg.FwrdingPolicy.FeeRate == entry(newPolicy).FeeRate &&
+//@           l.cfg.FwrdingPolicy.TimeLockDelta == entry(newPolicy).TimeLockDelta &&
+//@           l.cfg.FwrdingPolicy.MinHTLCOut == entry(newPolicy).MinHTLCOut && l.cfg.FwrdingPolicy.MaxHTLC == entry(newPolicy).MaxHTLC
